@@ -24,7 +24,7 @@ var c13 = core.Register(&core.Prop{
 	Shards: func(tier string) int { return pickTier(tier, 8, 16) },
 	Floors: func(c map[string]int64, tier string) []string {
 		var out []string
-		for _, k := range []string{"roundtrips", "unterminated_checked", "esc:simple", "esc:x", "esc:u", "esc:quote", "esc:backslash", "quote:single", "quote:double", "invalid_utf8_texts", "large_texts"} {
+		for _, k := range []string{"roundtrips", "unterminated_checked", "esc:simple", "esc:x", "esc:u", "esc:quote", "esc:backslash", "quote:single", "quote:double", "invalid_utf8_texts", "large_texts", "string_sequences"} {
 			if c[k] == 0 {
 				out = append(out, "coverage floor: no "+k)
 			}
@@ -125,6 +125,43 @@ var c13Round = core.Mon(c13, "round-trip", func(w *core.W, c *StrCase) {
 	}
 })
 
+// StrSeqCase: several literals in one array; each must decode to its own text.
+type StrSeqCase struct {
+	Texts [][]byte `json:"texts"`
+	Lits  [][]byte `json:"lits"`
+}
+
+var c13Seq = core.Mon(c13, "literal-sequence", func(w *core.W, c *StrSeqCase) {
+	w.Eval(1)
+	var sb strings.Builder
+	sb.WriteString("[")
+	for i, l := range c.Lits {
+		if i > 0 {
+			sb.WriteString(", ")
+		}
+		sb.Write(l)
+	}
+	sb.WriteString("]")
+	v, err, panicked, pv := evalArray1(sb.String(), nil)
+	w.Count("string_sequences")
+	w.Nontrivial("seq:" + sb.String())
+	if panicked || err != nil {
+		w.Violation("literal-sequence", "C13/sequence-rejected", c, "values", fmt.Sprint(pv, err), fmt.Sprintf("%q", clipS(sb.String(), 200)))
+		return
+	}
+	arr, _ := v.([]interface{})
+	if len(arr) != len(c.Texts) {
+		w.Violation("literal-sequence", "C13/sequence-shape", c, len(c.Texts), show(v), fmt.Sprintf("%q", clipS(sb.String(), 200)))
+		return
+	}
+	for i := range arr {
+		if s, ok := arr[i].(string); !ok || s != string(c.Texts[i]) {
+			w.Violation("literal-sequence", "C13/sequence-round-trip", c, fmt.Sprintf("%q", clipS(string(c.Texts[i]), 60)), show(arr[i]), fmt.Sprintf("literal %d of %q", i, clipS(sb.String(), 200)))
+			return
+		}
+	}
+})
+
 var c13Open = core.Mon(c13, "unterminated", func(w *core.W, c *ParseCase) {
 	w.Eval(1)
 	var err error
@@ -213,6 +250,19 @@ func runC13(w *core.W) {
 		}
 		w.Count("large_texts")
 		one(t, i)
+	}
+	// sequences of literals in one formula (scanner state must not carry over)
+	for i, n := 0, w.Pick(20000, 200000); i < n; i++ {
+		c := &StrSeqCase{}
+		for j, k := 0, 2+r.Intn(4); j < k; j++ {
+			t := randText(r, 10)
+			if j > 0 && r.Intn(4) == 0 {
+				t = []byte{} // an empty literal right after a non-empty one
+			}
+			c.Texts = append(c.Texts, t)
+			c.Lits = append(c.Lits, escape(r, t, "'\""[r.Intn(2)], []int{0, 30, 100}[r.Intn(3)], counts))
+		}
+		c13Seq(w, c)
 	}
 	for k, v := range counts {
 		w.CountN(k, int64(v))
